@@ -52,6 +52,10 @@ func c11Alphabet() []lx.Op {
 		{Kind: "script", Name: "allot-meta", Script: "send [USD 10] (\n source = @a\n destination = {\n 1/3 to @c\n remaining to @a:b\n }\n)\nset_account_meta(@c, \"tag\", \"x\")\nset_tx_meta(\"st\", \"y\")"},
 		{Kind: "revert", Name: "revert1", TxID: 1, Meta: map[string]string{"why": advValue}},
 		{Kind: "revert", Name: "revert2-force-eff", TxID: 2, Force: true, AtEff: true},
+		// reachable at depth 2 (quick): the reverting transaction is dated at the original's
+		// timestamp while revertedAt is the date of the revert — the two dates the import of a
+		// REVERTED_TRANSACTION log must keep apart (seeded change C11)
+		{Kind: "revert", Name: "revert1-force-eff", TxID: 1, Force: true, AtEff: true},
 		{Kind: "accmeta", Name: "accmeta-a", Address: "a", Meta: map[string]string{"k": advValue}},
 		{Kind: "txmeta", Name: "txmeta1", TxID: 1, Meta: map[string]string{"m": "x"}},
 		{Kind: "deltxmeta", Name: "deltxmeta1", TxID: 1, Key: "k"},
